@@ -85,6 +85,21 @@ void h_libClose(void)
 	VREACH();
 }
 
+/* the call site's precondition: what the real libWrite hands to emitTheIntermed (and so to libClose) */
+FILE *fileMustOpen(FileName fn, IOMode mode) { return v_open(); }
+FileName fnameCopy(FileName fn) { return fn; }
+FileName nondet_fname(void);
+void h_libWrite(void)
+{
+	FileName fn = nondet_fname();
+	Lib lib;
+	g_nopen = 0; g_reported = 0; g_io_failed = 0; g_open_failed = 0;
+	lib = libWrite(fn);
+	CHECK("libWrite: the library is writable, marked as an output, and owns the one open stream",
+	      lib != 0 && lib->rdOnly == 0 && lib->isOutput != 0 && lib->file == &v_stream[0] && g_nopen == 1 && g_open[0] && lib->unitb == 0);
+	VREACH();
+}
+
 #ifdef NATIVE_REPLAY
 V_NATIVE_MAIN(ENTRY)
 #endif
